@@ -42,7 +42,17 @@ SRC_SPECS = [
          lean='clouds_prepare_each', dialect='shaped', params=_PE, lens={'wngrid': 'nW'},
          attrs={'model.nLayers': ('nL', 'nat'), 'model.pressureProfile': ('P', 'arr'),
                 'self._cloud_pressure': ('p0', 's'), 'self._contrib': ('contrib_attr', 'arr2')},
-         dims={'model.pressureProfile': ['nL']}, local_attrs=['self._contrib'], yields='single', returns='arr2'),
+         dims={'model.pressureProfile': ['nL']}, local_attrs=['self._contrib'], ignore_stores=['self.sigma_xsec'],
+         yields='single', returns='arr2'),
+    # what the suspended generator has PUBLISHED in `self.sigma_xsec` at its yield (the array `contribute` reads when
+    # model_full_contrib re-runs path_integral for the component): the same source translated with `publish`
+    dict(module='taurex/contributions/simpleclouds.py', cls='SimpleCloudsContribution', func='prepare_each',
+         lean='clouds_prepare_each_published', callname='clouds_prepare_each_published', dialect='shaped', params=_PE,
+         lens={'wngrid': 'nW'},
+         attrs={'model.nLayers': ('nL', 'nat'), 'model.pressureProfile': ('P', 'arr'),
+                'self._cloud_pressure': ('p0', 's'), 'self._contrib': ('contrib_attr', 'arr2')},
+         dims={'model.pressureProfile': ['nL']}, local_attrs=['self._contrib'], ignore_stores=['self.sigma_xsec'],
+         publish='self.sigma_xsec', yields='single', returns='arr2'),
     dict(module='taurex/contributions/simpleclouds.py', cls='SimpleCloudsContribution', func='contribute',
          lean='clouds_contribute', dialect='shaped',
          params=dict(model='skip', start_layer='skip', end_layer='skip', density_offset='skip', layer='nat',
